@@ -3,7 +3,7 @@
 #  (a) demo fails with the change and passes without it, (b) the pinned baseline suite still passes with it
 WT="$1"; ID="$2"; OUT=/verif/build/seedverify/$ID; mkdir -p "$OUT"
 cd "$WT" || exit 2
-DEMO=$(ls tests/ | grep -i demo | head -1 | sed 's/\.rs$//')
+DEMO=$(git status --short tests | grep '^??' | head -1 | sed 's#^?? tests/##; s/\.rs$//')
 echo "demo test file: $DEMO" > "$OUT/summary.txt"
 cargo test --offline --test "$DEMO" > "$OUT/demo_with.txt" 2>&1; echo "demo WITH change: exit=$? $(grep -E '^test result' "$OUT/demo_with.txt" | tail -1)" >> "$OUT/summary.txt"
 git stash push -q -- src
